@@ -12,7 +12,7 @@ Definition botfr (fr : frame) : bool := match fr with FTop _ | FPIdle => true | 
 Fixpoint afterbot (st : list frame) : list frame := match st with [] => [] | fr :: r => if botfr fr then r else afterbot r end.
 Definition opfr (fr : frame) : bool :=
   match fr with
-  | FUse _ _ | FAwRet _ | FPark _ | FDropRet _ _ | FFS1 _
+  | FUse _ _ | FAwRet _ | FPark _ | FDropRet _ _ | FFS1 _ | FY _ _ _ _
   | FS1 _ _ | FClosure _ _ | FSIidle | FSDpush _ _ | FSDloop | FSDidle | FSBreg _ _ | FSBpush _ _ | FSBwait | FSBclaim
   | FROdeq | FROpend _ | FROcheck _ | FROpark _ | FJob _ _ KRoj => true
   | _ => false
